@@ -18,6 +18,15 @@ CHECKS = {
               "against the extracted model and the reference (all histories of length <= 2 over 114 ops x 56 queries, length 3 in the thorough tier, random longer ones)."),
         note="Hypothesis of the theorem: scoped ranges start at token.Pos >= 1 (shown necessary by a refuting Example; every caller passes a real position).",
         technique="Coq proof by invariant over operation histories + exhaustive model/implementation correspondence"),
+    "C19": dict(
+        text=("Theorems (Coq, every line, every column, every file content): a line within the display limit is shown unchanged with the caret at the reported column; "
+              "for a longer line and 1 <= col <= len the excerpt exists, the byte under the caret IS the byte at the reported column, the caret lies inside the excerpt and "
+              "the excerpt is at most limit+3 bytes; the caret padding has display_col-1 characters with a tab exactly where the excerpt has one; the context window is exactly "
+              "lines max 1 (n-2) .. min len (n+1) with their own texts; unreadable / too-short files give no excerpt; no input makes a slice expression fail. The display limit and "
+              "window sizes are extracted from reporter.go on every run. Tied to the code by comparing the full message text of reporting.Reporter.ReportViolation (public API, synthetic Pass) "
+              "with the extracted model over all columns of lines around every regime boundary (thorough: every length 0..600 x every column)."),
+        note="Byte-level statements (as the code is); visual width of multi-byte runes not claimed; lines below bufio.Scanner's 64 KiB limit; theorem (2) for 1 <= col <= len.",
+        technique="Coq proof (linear arithmetic over the slicing model) + exhaustive-by-column message correspondence"),
 }
 
 PENDING_REASON = "check under construction in this round (designed in DESIGN.md section 5); not yet claimed"
